@@ -38,20 +38,7 @@ V3 = "msmart.lan._LanProtocolV3"
 
 def sub_run(ctx, mod, label):
     """Re-run another property's obligations inside this check (their findings are reported under C01)."""
-    sub = Ctx(ctx.prop, ctx.prog, tier=ctx.tier, seed=ctx.seed, write=False)
-    mod.run(sub)
-    sub.check_minima()
-    for o in sub.obligations:
-        o2 = dict(o)
-        o2["rule"] = f"C01.{label}/" + o2["rule"]
-        ctx.obligations.append(o2)
-    for f in sub.findings:
-        f.rule = f"C01.{label}/" + f.rule
-        ctx.findings.append(f)
-    for q in sub.analysed["functions"]:
-        if q not in ctx.analysed["functions"]:
-            ctx.analysed["functions"].append(q)
-    ctx.count(f"imported_{label}", len(sub.obligations))
+    ctx.import_rules(mod, label)
 
 
 def v2_size_ok(N, V):
@@ -119,11 +106,8 @@ def run(ctx):
     from ..helpers import term_lookup, unknown_callee, with_helpers
     stl = term_lookup(prog, send)
     send_fns = with_helpers(prog, send)
-    writes = [(n, stl(n)) for f_ in send_fns for n in ast.walk(f_.node) if isinstance(n, ast.Call) and attr_call(n, "_protocol", "write")]
-    w_ok = bool(writes) and all(t is not None and call_is(strip(t[2][0]), "msmart.lan._Packet.encode") and strip(strip(t[2][0])[2][-2]) == ("attr", ("param", lp), "_device_id")
-                                and strip(strip(t[2][0])[2][-1]) == ("param", send.params[1]) for n, t in writes)
-    ctx.ob("C01.c", send.qual, w_ok, "LAN.send writes _Packet.encode(self._device_id, data) and nothing else", func=send.qual, file=send.module.rel, construct="self._protocol.write(packet)",
-           fail="LAN.send does not write exactly the V2-wrapped frame for this device id")
+    from ._pipeline import read_returns_decoded, send_writes_wrapped
+    send_writes_wrapped(ctx, "C01.c")
     # every element appended to the result comes from self._read() / self._read_available()
     ret_names = {n.value.id for n in ast.walk(send.node) if isinstance(n, ast.Return) and isinstance(n.value, ast.Name)}
     # appends to the returned list: in send itself, or in a helper that receives the list as an argument (once per call site)
@@ -242,10 +226,7 @@ def run(ctx):
     ctx.ob("C01.c", send.qual, srcs.count("drain") >= 2 and srcs.count("read") >= 1, "frames read before the write and after the response are appended (unsolicited frames are kept, not dropped)",
            func=send.qual, file=send.module.rel, construct="pre-send and post-response drains", detail={"sources": srcs},
            fail="the pre-send or post-response drain no longer adds its frames to the result: unsolicited state reports are lost")
-    rd = ctx.fn(f"{LAN}._read")
-    rt = [t for _pc, t, n, _ in summarize(prog, rd).returns if n is not None]
-    rd_ok = len(rt) == 1 and call_is(strip(rt[0]), "msmart.lan._Packet.decode") and strip(strip(rt[0])[2][-1])[0] == "await" and meth_is(strip(strip(strip(rt[0])[2][-1])[1]), "read")
-    ctx.ob("C01.c", rd.qual, rd_ok, "_read returns _Packet.decode(await protocol.read())", func=rd.qual, file=rd.module.rel, construct="_read", fail="_read does not return the decoded packet it read")
+    read_returns_decoded(ctx, "C01.c")
     ra = ctx.fn(f"{LAN}._read_available")
     ys = [n for n in ast.walk(ra.node) if isinstance(n, ast.Yield)]
     ra_ok = len(ys) == 1 and isinstance(ys[0].value, ast.Await) and isinstance(ys[0].value.value, ast.Call) and attr_call(ys[0].value.value, "_read") \
